@@ -188,6 +188,8 @@ def record(res, tier, tr):
             pairs = clitrace.gen_pairs(seed() * 4243 + ci, n, cfg)
             # every second rules file also observes each of its rules through a reference by name
             clitrace.add_refs(pairs[0::2])
+            # every fifth rules file has a rule called `default`
+            clitrace.name_default(pairs[3::5])
             for k, c in enumerate(pairs):
                 names = sorted({r["n"] for r in c["prog"]["rules"]})
                 ncases = rnd.choice([1, 2, 2, 3, 3, 4])
